@@ -17,6 +17,7 @@ import Driver.OpsPTN
 import Driver.OpsSolvers
 import Driver.OpsApi
 import Driver.OpsGlue
+import Driver.OpsLegal
 namespace Driver
 
 def handlers : List Handler := [
@@ -39,6 +40,7 @@ def handlers : List Handler := [
   handleSolvers,
   handleApi,
   handleGlue,
+  handleLegal,
 ]
 
 def step (st : St) (line : String) : St × String :=
